@@ -411,10 +411,6 @@ void ezc3d::c3d::analog(const std::vector<ezc3d::DataNS::Frame> &frames)
 void ezc3d::c3d::updateHeader()
 {
     // Parameter is always consider as the right value. If there is a discrepancy between them, change the header
-    if (static_cast<size_t>(parameters().group("POINT").parameter("FRAMES").valuesAsInt()[0]) != header().nbFrames()){
-        _header->firstFrame(0);
-        _header->lastFrame(static_cast<size_t>(parameters().group("POINT").parameter("FRAMES").valuesAsInt()[0]) - 1);
-    }
     float pointRate(parameters().group("POINT").parameter("RATE").valuesAsFloat()[0]);
     float buffer(10000); // For decimal truncature
     if (static_cast<int>(pointRate*buffer) != static_cast<int>(header().frameRate()*buffer)){
@@ -447,6 +443,12 @@ void ezc3d::c3d::updateHeader()
             _header->nbAnalogs(static_cast<size_t>(parameters().group("ANALOG").parameter("USED").valuesAsInt()[0]));
     } else
         _header->nbAnalogs(0);
+
+    // The frame count of the header depends on the point and analog counts, so it is compared once they are up to date
+    if (static_cast<size_t>(parameters().group("POINT").parameter("FRAMES").valuesAsInt()[0]) != header().nbFrames()){
+        _header->firstFrame(0);
+        _header->lastFrame(static_cast<size_t>(parameters().group("POINT").parameter("FRAMES").valuesAsInt()[0]) - 1);
+    }
 }
 
 void ezc3d::c3d::updateParameters(const std::vector<std::string> &newPoints, const std::vector<std::string> &newAnalogs)
